@@ -462,6 +462,11 @@ def describe(c, r, k):
                 if esg is not None and mine & set(sig_tvs(esg)):
                     info['method_level_tv_seen_before'] = True
         info['method_level_tvs'] = sorted(mine)
+        # a type parameter whose X is not a plain class and that occurs NESTED (not as a whole position) in this signature
+        xs = news[-1][3]
+        non_class = {t['id'] for t, x in zip(cd['tparams'], xs) if x[0] != 'cls'}
+        info['nested_class_tv_with_annotation_x'] = s[0] == 'call' and any(
+            a[0] != 'tv' and (set(tvs_of(a, {})) & non_class) for a in positions_of(sg))
     per_pos = [set(tvs_of(a, {})) for a in positions_of(sg)]
     info['shared_tv_positions'] = any(per_pos[i] & per_pos[j] for i in range(len(per_pos)) for j in range(i + 1, len(per_pos)))
     return info
@@ -474,6 +479,9 @@ def matcher(f, case):
         return False          # every known finding is reproduced by the model; anything else is new
     if m == 'non_generic_pedantic_class_typevar_across_positions':
         return d.get('step_kind') == 'call' and d.get('class_kind') == 'pedantic' and d.get('shared_tv_positions') \
+            and case.get('impl_out') == 0 and case.get('spec') == 'MustNot'
+    if m == 'generic_instance_nested_class_typevar_degrades_to_runtime_class':
+        return d.get('step_kind') == 'call' and d.get('class_kind') == 'generic' and d.get('nested_class_tv_with_annotation_x') \
             and case.get('impl_out') == 0 and case.get('spec') == 'MustNot'
     if m == 'generic_instance_method_level_typevar_bound_earlier':
         return d.get('step_kind') == 'call' and d.get('class_kind') == 'generic' and d.get('method_level_tv_seen_before') \
